@@ -200,6 +200,7 @@ class Check:
     GROUP = 1                # cases per run child
     CASE_TIMEOUT = 60.0      # wall seconds after which a run child is killed (harness, not verdict)
     RULE = ''
+    BUDGET = {'quick': 600.0, 'thorough': 2400.0}   # wall seconds after which no new group is started
     ASSUMPTIONS = []
     REAL_STUB = {}
 
